@@ -455,7 +455,11 @@ def h0 : HashFns where
   str s := s.foldl (fun acc c => (acc * 1000003 + c.toNat + 7) % P61) 5381
   int n := if n == -1 then -2 else n % P61
   bool b := if b then 1 else 0
-  tuple l := l.foldl (fun acc x => (acc * 1000003 + (x % P61) * 31 + 97) % P61) 3430008
+  -- deliberately non-linear: an affine combination lets two opposite changes in sibling
+  -- sub-objects cancel (observed: two constants swapping their values)
+  tuple l := l.foldl (fun acc x =>
+    let y := x % P61
+    (acc * 1000003 + y * y * 31 + y * 7 + (acc % 65537) * y + 97) % P61) 3430008
   fset l := ((l.map (fun x => (x % P61) * (x % P61) + 89869747 * (x % P61) + 3141592653)).foldl (· + ·) 0 * 69069
     + 907133923 + l.length) % P61
 
